@@ -5,7 +5,7 @@
    target source is compared with the implementation (mirror oracle). *)
 From Coq Require Import List ZArith Bool.
 From EosV Require Import lib.AList model.World model.Engine model.Ops proofs.Misc_p proofs.Status_p proofs.Frame_p
-     proofs.Owner_p proofs.Cinv_p proofs.Runs_p model.Wf proofs.RunsC_p proofs.RunsD_p.
+     proofs.Owner_p proofs.Cinv_p proofs.Runs_p model.Wf proofs.RunsC_p proofs.RunsK_p proofs.RunsD_p.
 Import ListNotations.
 
 Theorem C14_same_source_noop : forall s x new y,
